@@ -129,3 +129,56 @@ Example events_match_example :
   stored_seq [] ops = [([97%N], 0); ([97%N], 1); ([97%N], 2)] /\
   deleted_keys (trace_of (run_mem {| c_cap := 1; c_max := 0 |} ops)) = [([97%N], 0); ([97%N], 1)].
 Proof. vm_compute. auto. Qed.
+
+(* ------------------------------------------------------------------ events explained by the limits *)
+From IV Require Import Proofs.StoreSpecLimits Proofs.StoreSpecBoth Proofs.MemStoreLimits.
+
+Lemma run_spec_nth_ev cfg : forall ops1 st o ops2,
+  nth_error (map snd (run_spec cfg st (ops1 ++ o :: ops2))) (length ops1) =
+  Some (snd (exec_spec cfg (final_spec cfg st ops1) o)).
+Proof.
+  induction ops1 as [|a ops1 IH]; intros st o ops2.
+  - cbn [app length run_spec final_spec]. destruct (exec_spec cfg st o) as [[st' ob] evs]. reflexivity.
+  - cbn [app length run_spec final_spec]. destruct (exec_spec cfg st a) as [[st' ob] evs]. cbn [map nth_error]. apply IH.
+Qed.
+
+(** [delivery_events_explained]: at any point of any history on the memory-store model (every
+    cap and size limit), the events of a delivery are exactly: one deleted event per message the
+    CAP evicts — the oldest of the receiving mailbox, and some only if the mailbox would exceed the
+    cap —, then one deleted event per message the SIZE LIMIT evicts — the shortest prefix of the
+    store-wide arrival order that makes the store fit, and some only if the store would exceed the
+    limit —, then the stored event of the delivered message. (C16's "one deleted event per removed
+    message" composed with C08's "oldest first, only what is necessary".) *)
+Theorem delivery_events_explained cfg ops1 ops2 mb date tag size :
+  let st := final_spec cfg spec_init ops1 in
+  let m := {| m_date := date; m_tag := tag; m_size := size; m_seen := false |} in
+  let sb := box mb (live st) ++ [{| e_mb := mb; e_k := count_of mb (counts st); e_msg := m |}] in
+  let '(d1, l2) := add_cap cfg mb (add_l1 st mb m) in
+  let '(d2, l3) := add_fit cfg l2 in
+  nth_error (map snd (run_mem cfg (ops1 ++ Add mb date tag size :: ops2))) (length ops1) =
+    Some (map ev_deleted d1 ++ map ev_deleted d2 ++ [(EStored, mb, count_of mb (counts st))]) /\
+  (c_cap cfg <> 0 -> d1 = firstn (length sb - c_cap cfg) sb) /\ (c_cap cfg = 0 -> d1 = []) /\
+  (d1 <> [] <-> c_cap cfg <> 0 /\ c_cap cfg < length (box mb (live st)) + 1) /\
+  l2 = d2 ++ l3 /\
+  (c_max cfg <> 0%N -> (total l3 <= c_max cfg)%N /\
+     forall d' r', l2 = d' ++ r' -> (total r' <= c_max cfg)%N -> length d2 <= length d') /\
+  (d2 <> [] <-> c_max cfg <> 0%N /\ (c_max cfg < total l2)%N).
+Proof.
+  intros st m sb.
+  pose proof (run_spec_nth_ev cfg ops1 spec_init (Add mb date tag size) ops2) as Hn. fold st in Hn.
+  cbn [exec_spec] in Hn. fold m in Hn. rewrite spec_add_unfold in Hn. cbv zeta in Hn.
+  pose proof (evicts_iff_necessary cfg st mb m) as Hnec. cbv zeta in Hnec.
+  pose proof (cap_keeps_newest cfg st mb m) as Hk. cbv zeta in Hk. fold sb in Hk.
+  assert (Hc0 : c_cap cfg = 0 -> fst (add_cap cfg mb (add_l1 st mb m)) = []).
+  { intros H0. unfold add_cap. rewrite H0. reflexivity. }
+  destruct (add_cap cfg mb (add_l1 st mb m)) as [d1 l2]. cbn [fst] in Hc0.
+  pose proof (add_fit_split cfg l2) as Hs.
+  assert (Hm : c_max cfg <> 0%N -> let '(d2, l3) := add_fit cfg l2 in (total l3 <= c_max cfg)%N /\
+                 forall d' r', l2 = d' ++ r' -> (total r' <= c_max cfg)%N -> length d2 <= length d').
+  { intros H0. pose proof (evict_global_oldest_prefix cfg l2 H0) as H. destruct (add_fit cfg l2). tauto. }
+  destruct (add_fit cfg l2) as [d2 l3]. cbn [snd] in Hn.
+  destruct Hnec as [Hn1 Hn2]. destruct Hk as [Hk1 _].
+  split; [rewrite mem_refines_spec; exact Hn|].
+  split; [intros H0; apply (Hk1 H0)|]. split; [exact Hc0|]. split; [exact Hn1|]. split; [exact Hs|].
+  split; [exact Hm | exact Hn2].
+Qed.
